@@ -451,6 +451,20 @@ theorem counterexample_optional_duplicate_outer :
     ¬ Agrees (Exec.run small { g := gOneNode } qOptionalDup) (Spec.denote small { g := gOneNode } qOptionalDup) := by
   decide
 
+/-- a MATCH on a variable that an OPTIONAL MATCH left null keeps the row:
+    `MATCH (n1) OPTIONAL MATCH (n1)-[:X]->(n2) MATCH (n2) RETURN n1` over one node returns one row, the reference none -/
+def qNullBoundMatch : Query :=
+  [.match_ false [⟨⟨some "n1", [], []⟩, []⟩],
+   .match_ true [⟨⟨some "n1", [], []⟩, [(⟨none, ["X"], .out, []⟩, ⟨some "n2", [], []⟩)]⟩],
+   .match_ false [⟨⟨some "n2", [], []⟩, []⟩],
+   .return_ ⟨false, [⟨.plain (.var "n1"), "n1"⟩], [], none, none⟩]
+
+theorem counterexample_match_null_bound_variable :
+    ¬ Agrees (Exec.run small { g := gOneNode } qNullBoundMatch) (Spec.denote small { g := gOneNode } qNullBoundMatch) := by
+  decide
+
+example : (Findings.triggers small { g := gOneNode } qNullBoundMatch) = ["C11-match-null-bound-variable"] := by decide
+
 /-- formerly a counterexample (the planner dropped the property map of an anonymous relationship pattern),
     repaired by fix 0a34a68: `MATCH (a)-[{w: 5}]->(b)` no longer matches a relationship without `w`. -/
 def qAnonRelProps : Query :=
